@@ -229,7 +229,8 @@ EXTRA = {
            "its operation and not the name of the opposite one, helpers read under the constant flags they are called "
            "with (BUILTINID); no binary operator in the anchored files has identical operands (EQOP, HIR scan).",
     "C17": "HOOKSELECT reads what the filters in front of the candidates' collect() consume (receiver, name, params, "
-           "return_type); REWRITE follows the decision into a same-file helper.",
+           "return_type); REWRITE follows the decision into a same-file helper; the hook table is complete before any body is "
+           "lowered (HOOKFIRST).",
     "C03": "Also decided: a parser function that lexes a substring again receives a base offset or its result is rebased "
            "(SUBSPAN); the type tested by ensure_bool_condition, the span it blames and the compatibility flag belong to "
            "one expression (COHERENT); types_compatible never equates distinct nominal/generic heads (NOMINAL, decision table); checker "
@@ -260,6 +261,7 @@ EXTRA = {
            "every path (EVERYPATH, 60+ function/field pairs, two reviewed exemptions); the String arm writes only the "
            "constant double quote and the escaped payload (STRDELIM); every backslash escape escape_string can write is "
            "decoded by the text lexer.",
+    "C12": "Also counted as iteration sites: hash containers handed to extend / from_iter of an ordered sequence.",
     "C13": "Also decided: the escaped spelling never reaches a map/set lookup, a crate-local lookup method or a name "
            "comparison (ESCKEY, incl. identifier text and closure captures); a method name becomes a builtin MethodKind only "
            "after a test of the receiver's type (METHODRECV; 2 known findings); a name is a tuple index only when all "
@@ -275,10 +277,13 @@ EXTRA = {
            "already declared exactly on the paths that pushed its dependency line (both directions).",
     "C16": "Also decided: -x examines the reported result, after the xfail inversion (STOP); harness files are rewritten "
            "from the current source before every cargo run; EXIT is decided by propagating each truth assignment of "
-           "`failed > 0` / `xpassed > 0` to the final returns.",
+           "`failed > 0` / `xpassed > 0` to the final returns; each flag parameter of run_tests receives the command-line "
+           "field it stands for (FLAGWIRING).",
     "C18": "Also decided: the analysed state is stored before diagnostics are published (STOREFIRST); only "
            "analyze_document and did_close write `documents` and no handler skips the analysis of a change "
-           "(WHOMAYWRITE); did_close removes the entry before polling any future other than the lock's.",
+           "(WHOMAYWRITE); did_close removes the entry before polling any future other than the lock's; every return of "
+           "analyze_document passes a publish_diagnostics call (ALWAYSPUBLISH); did_change takes the change "
+           "unconditionally.",
 }
 THOROUGH = (" Thorough tier = the same rules plus a sensitivity self-test: every recorded seeded change this check detects "
             "(/verif/seeded) is applied to a scratch copy of /repo's current tree and must be re-detected by the same "
